@@ -221,7 +221,13 @@ func (r *Rig) Decode(s *State) *View {
 		v.Bal[unknownAcc] = rest
 	}
 	v.Supply = r.bk.GetSupply(ctx).GetTotal().AmountOf(denom).BigInt()
-	v.Params = r.sk.GetParams(ctx)
+	// the parameters are read from the parameter store itself (the subspace the params module writes), not through the
+	// module's getters
+	if ss, ok := r.pk.GetSubspace(st.ModuleName); ok {
+		ss.GetParamSet(ctx, &v.Params)
+	} else {
+		v.Params = r.sk.GetParams(ctx)
+	}
 	return v
 }
 
